@@ -108,6 +108,21 @@ HISTORY = {
     "equal_literals_ints": "print(list(range(2)), [10, 20, 30][1], [5][0], 3, 10 // 3, 255, 1 + 1, 'ab'[0], 2 * 'x')\n",
     "equal_literals_bools": "a = True\nb = False\nprint(a, b, a + 1, [7, 8][b], [7, 8][a], not 0, not 1)\n",
     "equal_literals_strings": "print('a', b'a', 'ab', b'ab', '1', 1, '', b'', (), [], 'True', 'None', None)\n",
+    # many names in every kind of name set the converter keeps (captured parameters and locals, class members,
+    # declared globals, imports, comprehension targets): the order in which they are written must not
+    # depend on the hash seed of the process
+    "many_names": (
+        "GLOB1 = GLOB2 = GLOB3 = 1\n"
+        "def f(alpha, beta, gamma, delta, epsilon, zeta, *eta, theta=8, **iota):\n"
+        "    def g():\n        nonlocal alpha, beta, gamma, delta, epsilon, zeta, eta, theta, iota\n"
+        "        alpha += 1; beta += 1; gamma += 1; delta += 1; epsilon += 1; zeta += 1\n        return alpha + beta + theta + len(eta) + len(iota)\n"
+        "    x1 = y1 = z1 = w1 = 0\n    def h():\n        nonlocal x1, y1, z1, w1\n        x1 = y1 = z1 = w1 = 5\n        return x1\n"
+        "    class K:\n        a1 = 1; b1 = 2; c1 = 3; d1 = 4\n        r = [e1 for e1 in (a1, b1, c1, d1)]\n"
+        "        s = [GLOB1 + GLOB2 + GLOB3 + alpha + x1 for _ in range(1)]\n        t = {k1: v1 for k1, v1 in zip('abc', (a1, b1, c1))}\n"
+        "    return g(), h(), K.r, K.s, sorted(K.t.items()), [(p1, q1, r1) for p1 in 'ab' for q1 in 'cd' for r1 in 'e']\n"
+        "def q():\n    global ga, gb, gc, gd, ge\n    ga = gb = gc = gd = ge = 1\n    import os, sys, json, math, string\n"
+        "    from os.path import join, basename, dirname, splitext\n    return basename(join('a', 'b')), math.floor(1.5)\n"
+        "print(f(1, 2, 3, 4, 5, 6, 7, k=9), q(), ga + ge)\n"),
     # the same long string (both quote kinds, a backslash) in a replacement field: host 3.12+ syntax
     "long_string_in_field": "print(f\"{len(%r)}\", f'{%r[:4]}')\n" % (_LONG, _LONG),
 }
